@@ -39,13 +39,19 @@ META = {
 class Recorder:
     """Label callback that returns an opaque token and remembers its argument."""
 
-    def __init__(self, prefix):
+    def __init__(self, prefix, literal=False):
         self.prefix = prefix
         self.calls = {}
+        self.literal = literal      # return graphviz.nohtml('<token>'): literal text shaped like <...>
 
     def __call__(self, names):
         names = tuple(names)
         token = f'{self.prefix}{len(self.calls)}'
+        if self.literal:
+            import graphviz
+            token = f'<{token}>'
+            self.calls[token] = names
+            return graphviz.nohtml(token)
         self.calls[token] = names
         return token
 
@@ -308,6 +314,7 @@ def run_case(concepts, case, spec):
     call(lat.graphviz, make_object_label=Recorder('O'), make_property_label=Recorder('P'))
     # only one callback customised (the other keeps its default), and a second export of the
     # same lattice object with other callbacks
+    call(lat.graphviz, make_object_label=Recorder('L', literal=True), make_property_label=Recorder('M', literal=True))
     call(lat.graphviz, make_object_label=Recorder('Q'))
     call(lat.graphviz, make_property_label=Recorder('R'))
     call(lat.graphviz)
